@@ -40,6 +40,20 @@ def c10 (fn : String) (args : List Arg) : Option String :=
       | some r => okW [r]
       | none => some "err exit 255"
   | "exp", [.w b, .w e] => okW [GoldilocksVerif.Model.exp b e]
+  -- aliased call patterns: the model is a value function of the operand values before the call
+  | "inv_oa", [.w a] => match GoldilocksVerif.Model.inv a with
+      | some r => okW [r]
+      | none => some "err exit 255"
+  | "div_oa", [.w a, .w b] => match GoldilocksVerif.Model.div a b with
+      | some r => okW [r]
+      | none => some "err exit 255"
+  | "div_ob", [.w a, .w b] => match GoldilocksVerif.Model.div a b with
+      | some r => okW [r]
+      | none => some "err exit 255"
+  | "div_oab", [.w a] => match GoldilocksVerif.Model.div a a with
+      | some r => okW [r]
+      | none => some "err exit 255"
+  | "exp_oa", [.w b, .w e] => okW [GoldilocksVerif.Model.exp b e]
   | _, _ => none
 
 /-- C15: conversions -/
